@@ -32,7 +32,9 @@ def make_scripts(rng, n, length):
     out = []
     for k in range(n):
         acts = []
-        grow = 0.25 + 0.35 * rng.random()        # some scripts grow long link lists (> 12: pdqsort path)
+        grow = 0.25 + 0.35 * rng.random()
+        if k % 5 == 0:      # long link lists with many equal names (> 12 elements: slices.Sort* leaves insertion sort)
+            acts.append({"op": "SetLinks", "ls": [link() for _ in range(rng.randint(13, 16))]})
         for _ in range(length):
             r = rng.random()
             if r < grow:
